@@ -177,6 +177,32 @@ theorem C11_old_foreign_exit_counterexample :
     (runOld [.create 0, .finish 0 1]).running 0 = 1 ∧ live (runOld [.create 0, .finish 0 1]).ws 0 = 0 ∧
     (run [.create 0, .finish 0 1]).running 0 = 0 := by decide
 
+/-- the idle worker's exit test in the worker loop (`try_grow`'s closure): leave when the keep-alive
+time is over and the pool counts more workers than its minimum, or when the pool may be recycled -/
+def idleExit (running minSize : Nat) (expired recycle : Bool) : Bool :=
+  (expired && decide (running > minSize)) || recycle
+
+/-- After the repair the test reads the counter of the pool that created the worker, and that
+counter counts the worker itself: with no core workers and the keep-alive time over, an idle worker
+leaves its loop wherever it happens to run — it cannot spin. -/
+theorem C11_multi_idle_worker_leaves (evs : List Ev) (w : Nat) (x : W)
+    (hx : (run evs).ws[w]? = some x) (hal : x.alive = true) :
+    idleExit ((run evs).running x.home) 0 true false = true := by
+  have hinv := C11_multi_pool_exact evs x.home
+  have hpos : 0 < live (run evs).ws x.home := by
+    unfold live
+    apply List.countP_pos_iff.mpr
+    exact ⟨x, List.mem_of_getElem? hx, by simp [hal]⟩
+  unfold idleExit
+  simp [hinv, hpos]
+
+/-- Before the repair the test read the counter of the pool the worker was running under: a worker
+created by pool 0 and resumed by pool 1 (which has none of its own) sees 0 and never leaves. -/
+theorem C11_old_idle_worker_spins :
+    idleExit ((runOld [.create 0]).running 1) 0 true false = false ∧
+    idleExit ((run [.create 0]).running 0) 0 true false = true := by decide
+
+
 end MultiPool
 
 end Oc.Props.C11
